@@ -27,8 +27,10 @@ EXTENDS Naturals, Sequences, FiniteSets, TLC, Json
 CONSTANTS MaxCbs, MaxEnq, MaxInv, Ops, CbShapes, ArgShapes, PredShapes, Counts,
           MaxFilters, FilterProtos     \* heterogeneous filters: how many, of which prototypes
 Protos == 1..5
-Binds == <<1, 2, 3, 4, 5, 2, 1, 2>>              \* shapes 1..5: exact; 6: callable with (int) and (int,const TS&); 7: callable with anything;
+Binds == <<1, 2, 3, 4, 5, 2, 1, 2, 2>>           \* shapes 1..5: exact; 6: callable with (int) and (int,const TS&); 7: callable with anything;
                                                  \* 8: void(int) that enqueues one more (int) event per call (at most MaxListenerEnq per script)
+                                                 \* 9: void(int) that throws every time it is called (C09): the listeners behind it do not run, the
+                                                 \*    exception leaves the invocation / dispatch / processing call, which discards the events it had taken
 MaxListenerEnq == 3
 Accepts == <<1, 2, 2, 3, 4, 5, 2>>               \* (), (int), (long), (TS), (Big), (int,TS), (char)
 Callable == <<{1}, {2}, {3}, {4}, {5}, {2, 5}>>   \* predicates: bool(), bool(int), bool(const TS&), bool(const Big&), bool(int,const TS&), generic {(int), (int,const TS&)}
@@ -45,20 +47,26 @@ Without(s, x) == SelectSeq(s, LAMBDA y : y # x)
 ProtoOf(h) == IF \E p \in Protos : InSeq(lst[p], h) THEN CHOOSE p \in Protos : InSeq(lst[p], h) ELSE 0
 
 Plain == [k |-> "plain", left |-> 0]
-PlainOf(k) == IF k = 8 THEN [k |-> "enq", left |-> 0] ELSE Plain
+PlainOf(k) == IF k = 8 THEN [k |-> "enq", left |-> 0] ELSE IF k = 9 THEN [k |-> "thr", left |-> 0] ELSE Plain
 Ctr(c) == [k |-> "ctr", left |-> IF c < 1 THEN 1 ELSE c]
 Cond == [k |-> "cond", left |-> 2]
 Before(s, h, n) == IF InSeq(s, h) THEN SubSeq(s, 1, Pos(s, h) - 1) \o <<n>> \o SubSeq(s, Pos(s, h), Len(s)) ELSE Append(s, n)
-\* one trigger of prototype p: every self-removing listener of that list counts down and detaches itself when it reaches zero
-Trig(p, ls, kd) == LET S == {n \in 1..Len(kd) : InSeq(ls[p], n) /\ kd[n].k \in {"ctr", "cond"}} IN
+\* the listeners one trigger reaches: all of the list, or up to and including the first one that throws
+RECURSIVE Upto(_,_)
+Upto(s, kd) == IF s = <<>> THEN <<>> ELSE IF kd[Head(s)].k = "thr" THEN <<Head(s)>> ELSE <<Head(s)>> \o Upto(Tail(s), kd)
+Throws(p, ls, kd) == \E i \in 1..Len(ls[p]) : kd[ls[p][i]].k = "thr"
+\* one trigger of prototype p: every self-removing listener it reaches counts down and detaches itself when it reaches zero
+Trig(p, ls, kd) == LET S == {n \in 1..Len(kd) : InSeq(Upto(ls[p], kd), n) /\ kd[n].k \in {"ctr", "cond"}} IN
                    [ls |-> [ls EXCEPT ![p] = SelectSeq(@, LAMBDA x : x \notin S \/ kd[x].left > 1)],
                     kd |-> [n \in 1..Len(kd) |-> IF n \in S THEN [kd[n] EXCEPT !.left = @ - 1] ELSE kd[n]]]
 \* enqueuing listeners of prototype p add one event each per trigger (while the script's budget lasts)
-Enqueuers(p, ls, kd) == Cardinality({n \in 1..Len(kd) : InSeq(ls[p], n) /\ kd[n].k = "enq"})
+Enqueuers(p, ls, kd) == Cardinality({n \in 1..Len(kd) : InSeq(Upto(ls[p], kd), n) /\ kd[n].k = "enq"})
 Min(a, b) == IF a < b THEN a ELSE b
 RECURSIVE TrigAll(_,_,_,_)
 TrigAll(ps, ls, kd, ne) == IF ps = <<>> THEN [ls |-> ls, kd |-> kd, ne |-> ne]
-                           ELSE LET t == Trig(Head(ps), ls, kd) IN TrigAll(Tail(ps), t.ls, t.kd, Min(MaxListenerEnq, ne + Enqueuers(Head(ps), ls, kd)))
+                           ELSE LET t == Trig(Head(ps), ls, kd)  ne2 == Min(MaxListenerEnq, ne + Enqueuers(Head(ps), ls, kd)) IN
+                                IF Throws(Head(ps), ls, kd) THEN [ls |-> t.ls, kd |-> t.kd, ne |-> ne2]       \* the exception ends the whole call
+                                ELSE TrigAll(Tail(ps), t.ls, t.kd, ne2)
 AddNode(op, p, newseq, kd) == /\ op \in Ops /\ ncb < MaxCbs /\ lst' = [lst EXCEPT ![p] = newseq] /\ kind' = Append(kind, kd) /\ ncb' = ncb + 1
                               /\ UNCHANGED <<pending, nuid, ninv, consumed, nle, flt, fkd>>
 OpAppend(k) == AddNode("al", Binds[k], Append(lst[Binds[k]], ncb + 1), PlainOf(k)) /\ H("al", k, 0)
@@ -107,13 +115,16 @@ SortedSeq(S) == LET RECURSIVE F(_)
                     F(T) == IF T = {} THEN <<>> ELSE LET m == CHOOSE x \in T : \A y \in T : x <= y IN <<m>> \o F(T \ {m})
                 IN F(S)
 OpProcessIf(s) == /\ "pi" \in Ops
-                  /\ LET rest == Passes(SortedSeq(Callable[s]), pending) IN
+                  /\ LET rest0 == Passes(SortedSeq(Callable[s]), pending)
+                         disp == SelectSeq(pending, LAMBDA e : \A i \in 1..Len(rest0) : rest0[i].uid # e.uid)
+                         \* a throwing listener ends the call: everything the call had swapped out of the queue is discarded with it
+                         rest == IF \E i \in 1..Len(disp) : Throws(disp[i].p, lst, kind) THEN <<>> ELSE rest0 IN
                      /\ consumed' = consumed \cup ({pending[i].uid : i \in 1..Len(pending)} \ {rest[i].uid : i \in 1..Len(rest)})
-                     /\ Fire(ProtosOf(SelectSeq(pending, LAMBDA e : \A i \in 1..Len(rest) : rest[i].uid # e.uid)), rest)
+                     /\ Fire(ProtosOf(disp), rest)
                   /\ UNCHANGED <<ncb, ninv, flt, fkd>> /\ H("pi", s, 0)
 
 Next == \/ \E k \in CbShapes : OpAppend(k) \/ OpPrepend(k) \/ \E h \in 1..MaxCbs : OpInsert(k, h)
-        \/ \E k \in CbShapes, c \in Counts : OpAppendCtr(k, c) \/ OpPrependCtr(k, c) \/ \E h \in 0..MaxCbs : OpInsertCtr(k, h, c)
+        \/ \E k \in CbShapes \ {8, 9}, c \in Counts : OpAppendCtr(k, c) \/ OpPrependCtr(k, c) \/ \E h \in 0..MaxCbs : OpInsertCtr(k, h, c)
         \/ OpAppendCond \/ OpPrependCond \/ \E h \in 0..MaxCbs : OpInsertCond(h)
         \/ \E h \in 1..MaxCbs : OpRemove(h)
         \/ \E p \in FilterProtos, b \in 0..2 : OpAppendFilter(p, b)
@@ -128,5 +139,5 @@ Ledger == /\ \A u \in 1..nuid : (u \in consumed) # (\E i \in 1..Len(pending) : p
 \* a callback sits in exactly one prototype's list
 OnePlace == \A h \in 1..ncb : Cardinality({p \in Protos : InSeq(lst[p], h)}) <= 1
 \* C16: a self-removing listener that is still attached has triggers left
-CtrLeft == \A n \in 1..ncb : (kind[n].k # "plain" /\ \E p \in Protos : InSeq(lst[p], n)) => kind[n].left >= 1
+CtrLeft == \A n \in 1..ncb : (kind[n].k \in {"ctr", "cond"} /\ \E p \in Protos : InSeq(lst[p], n)) => kind[n].left >= 1
 =============================================================================
